@@ -126,6 +126,44 @@ def check_blocks(ctx, inst, jobs):
     ctx.probe("graph_composed_from_blocks")
 
 
+def check_blocks_on_residual(ctx, inst, jobs, pick):
+    """An edge-adding building block applied to a graph from which a node was removed beforehand (a residual
+    graph): it either refuses, or the result is faithful - every node of the underlying graph is a live node
+    entity and the added edges are exactly the operation-machine edges among live nodes."""
+    from job_shop_lib import graphs as G
+    from job_shop_lib.graphs import NodeType
+
+    try:
+        g = G.build_disjunctive_graph(inst)
+        ops_nodes = g.nodes_by_type[NodeType.OPERATION]
+        victim = ops_nodes[pick % len(ops_nodes)]
+        g.remove_node(victim.node_id)
+        G.add_machine_nodes(g)
+    except Exception as e:  # noqa: BLE001
+        ctx.fail("builder_raised", f"removing an operation node from the disjunctive graph and adding machine nodes raised {short_exc(e)}", builder="blocks_residual")
+        return
+    before = {(u, v) for u, v in g.graph.edges()}
+    try:
+        G.add_operation_machine_edges(g)
+    except Exception:  # noqa: BLE001 - a refusal
+        ctx.probe("block_refused_on_residual_graph")
+        return
+    live = {n.node_id: n for n in g.non_removed_nodes()}
+    phantom = sorted((x for x in g.graph.nodes if x not in live or g.graph.nodes[x].get("node") is not live[x]), key=str)
+    ctx.check(not phantom, "nodes_equal_spec", lambda: f"add_operation_machine_edges on a graph whose operation node {victim.node_id} had been removed: "
+              f"the underlying graph now has nodes {phantom[:5]} that are not live node entities", builder="blocks_residual")
+    mach = {n.machine_id: n.node_id for n in live.values() if n.node_type == NodeType.MACHINE}
+    want = set()
+    for n in live.values():
+        if n.node_type == NodeType.OPERATION:
+            for m in n.operation.machines:
+                if m in mach:
+                    want |= {(n.node_id, mach[m]), (mach[m], n.node_id)}
+    got = {(u, v) for u, v in g.graph.edges()} - before
+    ctx.check(got == want, "no_extra_edge", lambda: f"add_operation_machine_edges on a graph whose operation node {victim.node_id} had been removed added extra {sorted(got - want, key=str)[:5]}, missing {sorted(want - got, key=str)[:5]}", builder="blocks_residual")
+    ctx.probe("block_applied_on_residual_graph")
+
+
 def execute(case, ctx):
     import networkx as nx
     from job_shop_lib import Schedule
@@ -159,6 +197,7 @@ def execute(case, ctx):
         ctx.probe("graphs_rechecked_after_other_instance")
     if cfg.get("from_blocks"):
         check_blocks(ctx, inst, jobs)
+        check_blocks_on_residual(ctx, inst, jobs, h64(case["ops"]))
     if is_flexible(spec):
         ctx.probe("flexible_instance_graphs")
     source = cfg["source"]
